@@ -439,7 +439,8 @@ def _alias_expr(e):
         return _alias_expr(e.value)
     if isinstance(e, ast.Subscript):
         s = e.slice
-        ok = isinstance(s, (ast.Name, ast.Constant)) or (isinstance(s, ast.UnaryOp) and isinstance(s.operand, ast.Constant))
+        ok = isinstance(s, (ast.Name, ast.Constant)) or (isinstance(s, ast.UnaryOp) and isinstance(s.operand, ast.Constant)) \
+            or _alias_expr(s)
         return ok and _alias_expr(e.value)
     if isinstance(e, ast.Call):
         return isinstance(e.func, ast.Name) and e.func.id == "id" and len(e.args) == 1 and not e.keywords \
